@@ -24,6 +24,7 @@ EXPLANATION = (
     ' (X11) a search condition is subscripted only with keys every condition of the table defines; X7 covers the stage functions as well.'
     ' (X12) the statements of a handler that records a per-reaction fault cannot raise on any exception object (no index into a computed value, no foreign calls; shared with C06-B16). (X13) those handlers include a catch-all or the awaited work is itself fenced (shared with C06-B14).'
     ' (X14) stage code outside the per-row handlers takes no min() / max() without default over a list that a failed job leaves empty (keys read off the failure records). (X15) no joblib map on the MCS path is given a timeout.'
+    ' (X16) per-condition results are accumulated in iteration order over all searched rows, the timed-out ones included (shared with C10-A4).'
 )
 ASSUMPTIONS = [
     "a worker thread that is still running after the timeout cannot raise into the caller (it may keep writing into the returned record; the affected row is then declined with a reason - examined, not a violation of the stated property)",
